@@ -1,7 +1,7 @@
 /-
   Lemmas/RealScalar.lean — the real numbers as a `Scalar` (noncomputable; proofs only): the intended mathematical
   reading of the curve model. Shows that **all** law hypotheses of the exact-arithmetic theorems — `ExactArith`,
-  `SqrtLaws`, `TrigLaws`, `PolarLaws` — are simultaneously satisfiable, with `sqrt = Real.sqrt`, `sin/cos = Real.sin/cos`,
+  `SqrtLaws`, `TrigLaws`, `PolarLaws`, `PeriodLaws` — are simultaneously satisfiable, with `sqrt = Real.sqrt`, `sin/cos = Real.sin/cos`,
   `atan2 y x = Complex.arg (x + iy)`.
 -/
 import Mathlib.Analysis.SpecialFunctions.Complex.Arg
@@ -82,5 +82,15 @@ theorem polarLaws_real : PolarLaws (id : ℝ → ℝ) where
     have h := Complex.norm_mul_sin_arg ⟨x, y⟩
     rw [Complex.norm_def, Complex.normSq_apply] at h
     exact h
+
+theorem periodLaws_real : PeriodLaws (id : ℝ → ℝ) where
+  cos_add θ := by
+    show Real.cos (θ + ((2 : ℕ) : ℝ) * Real.pi) = Real.cos θ
+    push_cast
+    exact Real.cos_add_two_pi θ
+  sin_add θ := by
+    show Real.sin (θ + ((2 : ℕ) : ℝ) * Real.pi) = Real.sin θ
+    push_cast
+    exact Real.sin_add_two_pi θ
 
 end Rosu.RealInst
